@@ -579,7 +579,7 @@ mutual
         | some res => do
           let (v, r3) ← res
           let consumed := r2.length - r3.length
-          if consumed > 8 * len then .error .unmodelled
+          if consumed > 8 * len then .error .decodeError     -- rejected since repair ace6523 of /repo
           else do
             let (_, r4) ← readBits (8 * len - consumed) r3
             .ok (v, r4)
